@@ -42,6 +42,33 @@ HARNESSES.append(
                               "check_name.0:42", "strncmp.0:4"],
          backends=["default", "kissat"],
          bound="one directory block of 36 / 48 bytes, every byte symbolic; block 0 (with . and ..) and a later block; inode numbers / counts symbolic"))
+HARNESSES.append(
+    dict(name="badinode", src="badinode.c", extra_src=["lib/ext2fs/blknum.c"],
+         funcs=["e2fsck_process_bad_inode", "ext2fs_file_acl_block", "ext2fs_blocks_count"],
+         unwind=4, unwindset=["main.%d:16" % i for i in range(4)] + ["fix_problem.0:16", "e2fsck_read_inode.0:130"],
+         backends=["default", "kissat"],
+         bound="one 128-byte inode, every byte symbolic; feature words, creator OS, first data block, 64-bit block count, "
+               "block size 1-64 KiB and the verdicts of pass 1's device/symlink sub-checks symbolic"))
+HARNESSES.append(
+    dict(name="bmcsum", src="bmcsum.c", extra_src=["lib/ext2fs/blknum.c"],
+         funcs=["check_block_bitmap_checksum", "check_inode_bitmap_checksum", "ext2fs_bg_flags_test", "ext2fs_group_desc"],
+         configs=[{"NG": 3, "DSZ": 32}, {"NG": 3, "DSZ": 64}, {"NG": 1, "DSZ": 32}],
+         unwind=5, unwindset=["main.%d:200" % i for i in range(6)] + ["fix_problem.0:5",
+                              "ext2fs_block_bitmap_csum_verify.0:5", "ext2fs_inode_bitmap_csum_verify.0:5",
+                              "check_block_bitmap_checksum.0:5", "check_inode_bitmap_checksum.0:5"],
+         backends=["default", "kissat"],
+         bound="1 and 3 groups of 32 clusters / 16 inodes, 32- and 64-byte descriptors with every byte symbolic, feature word, "
+               "fs->flags and per-group checksum verdicts symbolic"))
+HARNESSES.append(
+    dict(name="htreeleaf", src="htreeleaf.c", extra_src=["lib/ext2fs/dir_iterate.c"],
+         funcs=["check_dir_block", "check_name", "check_filetype", "ext2fs_get_rec_len"],
+         cut_statics={"e2fsck/pass2.c": ["parse_int_node"]},
+         configs=[{"BLK": 48, "BLOCKCNT": 1}, {"BLK": 36, "BLOCKCNT": 2}],
+         unwind=5, unwindset=["main.%d:50" % i for i in range(6)] + ["ref_scan.0:14", "ext2fs_dirhash2.0:14", "ext2fs_read_dir_block4.0:50",
+                              "check_dir_block.0:6", "check_name.0:42", "strncmp.0:4"],
+         backends=["default", "kissat"],
+         bound="one leaf block of 48 / 36 bytes (up to 4 / 3 entries) of an indexed directory, every byte symbolic; one symbolic 32-bit hash per "
+               "entry position; stale dx_block slot symbolic; inode numbers / counts symbolic"))
 MANIFEST = {
     "text": "Kernel-level slice (partial). Detector completeness against an independent format predicate, bounded-exhaustive: every extent header "
             "violating (magic, entries <= max, max entries fit the node) is rejected by ext2fs_extent_header_verify for every node size; every "
